@@ -55,6 +55,7 @@ struct Item {
     bool malformed = false; // body cannot be parsed as the type it claims (and the puppet leaves it out of its transcript, as an attacker would)
     int wire_type() const { return st.type_override >= 0 ? st.type_override : body; }
     bool is_hrr() const { return st.msg == p13::M_HELLO_RETRY_REQUEST; }
+    int hrr_sel = 0;        // HelloRetryRequest: selected_group = 0 the group the domain point prescribes (a legal change), 2 secp384r1, 3 ffdhe2048 (never offered), 4 the group the client already sent a share for
 };
 
 static int natural_type(int msg) {
@@ -88,7 +89,7 @@ static std::string item_str(const Item &it) {
     std::string s;
     if (it.kind == K_CCS) s = std::string("CCS(") + ccs_name[it.ccs] + ")";
     else if (it.kind == K_APPDATA) s = "AppData";
-    else { s = it.is_hrr() ? "HelloRetryRequest" : p13::hs_type_name(it.body); if (it.st.type_override >= 0) s += std::string("->type:") + std::to_string(it.st.type_override); }
+    else { s = it.is_hrr() ? fmt("HelloRetryRequest%s", it.hrr_sel == 2 ? "(secp384r1)" : it.hrr_sel == 3 ? "(ffdhe2048)" : it.hrr_sel == 4 ? "(group-already-shared)" : "") : p13::hs_type_name(it.body); if (it.st.cipher_suite) s += fmt("[suite %04x]", it.st.cipher_suite); if (it.st.type_override >= 0) s += std::string("->type:") + std::to_string(it.st.type_override); }
     static const char *kn[] = { "plain", "hs", "app", "wrong" };
     if (it.kind != K_CCS) s += std::string("/") + (it.st.keys >= 0 && it.st.keys <= 3 ? kn[it.st.keys] : "auto");
     if (it.st.flip_bit >= 0) s += fmt("/flip%ld%s", it.st.flip_bit, it.st.flip_body_only ? "" : "h");
@@ -138,7 +139,7 @@ enum St { ST_HELLO, ST_HELLO2, ST_EE, ST_CERT_CR, ST_CERT, ST_CV, ST_FIN, ST_DON
 // CertificateRequest (no cryptographic check stands behind their parsers; whether a garbage body is refused is parser strictness = C08/C10,
 // not sequence legality).  The run follows the strict verdict if the victim refuses such a message and the lenient one if it takes it.
 static Verdict model(const Dom &d, const std::vector<Item> &items, bool lenient = false) {
-    Verdict v; int st = ST_HELLO;
+    Verdict v; int st = ST_HELLO; unsigned hrr_suite = 0;
     auto bad = [&](int i, const std::string &why, bool immediate = true) { v.first_bad = i; v.why = why; v.immediate = immediate; };
     for (int i = 0; i < (int) items.size() && st != ST_DONE; i++) {
         const Item &it = items[i];
@@ -163,10 +164,13 @@ static Verdict model(const Dom &d, const std::vector<Item> &items, bool lenient 
             if (d.vclient && it.is_hrr() && it.body == wt) {
                 // RFC 8446 4.1.4: one HelloRetryRequest that changes the ClientHello is legal; a second one is fatal.  The puppet only asks for a
                 // group the victim offered no share for when the domain point says hrr.
-                if (st == ST_HELLO && d.hrr && it.st.flip_bit < 0) next = ST_HELLO2;
-                else { bad(i, st == ST_HELLO2 ? "second-hello-retry-request" : "hello-retry-request-without-change"); }
+                // 4.1.4 / 4.2.8: selected_group must be one the client offered in supported_groups and sent no share for
+                if (st == ST_HELLO && d.hrr && it.st.flip_bit < 0 && it.hrr_sel == 0) { next = ST_HELLO2; hrr_suite = it.st.cipher_suite ? it.st.cipher_suite : 0x1301; }
+                else { bad(i, st == ST_HELLO2 ? "second-hello-retry-request" : it.hrr_sel == 3 ? "hello-retry-request-group-not-offered" : "hello-retry-request-without-change"); }
                 break;
             }
+            // 4.1.4: the ServerHello must carry the cipher suite of the HelloRetryRequest (illegal_parameter otherwise)
+            if (d.vclient && st == ST_HELLO2 && it.body == wt && (it.st.cipher_suite ? it.st.cipher_suite : 0x1301u) != hrr_suite) { bad(i, "cipher-suite-changed-after-hello-retry-request"); break; }
             if (!d.vclient && d.hrr && st == ST_HELLO) { next = ST_HELLO2; break; }   // the server victim answers this ClientHello with a HelloRetryRequest
             next = d.vclient ? ST_EE : (d.cauth ? ST_CERT : ST_FIN); break;
         case ST_EE: if (wt == p13::HS_ENCRYPTED_EXTENSIONS) next = ST_CERT_CR; break;
@@ -213,6 +217,8 @@ static std::string root_sig(const std::string &why, bool completed) {
     if (why == "new-session-ticket-before-finished") return "tls13-new-session-ticket-accepted-before-finished";
     if (why == "message-spans-key-change") return "tls13-message-spanning-key-change-accepted";
     if (why == "malformed-server-hello") return "tls13-malformed-server-hello-ignored";
+    if (why == "second-hello-retry-request") return "tls13-second-hello-retry-request-accepted";
+    if (why == "cipher-suite-changed-after-hello-retry-request") return "tls13-cipher-suite-changed-after-hello-retry-request-accepted";
     if (!completed) return "tls13-illegal-message-not-rejected-on-arrival";
     if (why == "skipped-certificate-verify") return "tls13-completed-with-skipped-certificate-verify";
     if (why == "skipped-client-certificate" || why == "skipped-server-certificate") return "tls13-completed-with-skipped-certificate";
@@ -226,8 +232,8 @@ static std::string root_sig(const std::string &why, bool completed) {
 }
 
 // ------------------------------------------------------------------------------------------------ deviations
-enum Op { OP_DELETE, OP_DUP, OP_SWAP, OP_SUBST, OP_INJECT, OP_FLIP, OP_CLEAR, OP_WRONGKEYS, OP_APPDATA, OP_CCS, OP_SKIP_AUTH, OP_EMPTY_CERT, OP_SPAN, OP_N };
-static const char *op_name[] = { "delete", "duplicate", "swap", "substitute-type", "inject", "flip-bit", "send-in-clear", "wrong-keys", "appdata-before-finished", "ccs", "skip-cert+cv", "empty-certificate", "span-key-change" };
+enum Op { OP_DELETE, OP_DUP, OP_SWAP, OP_SUBST, OP_INJECT, OP_FLIP, OP_CLEAR, OP_WRONGKEYS, OP_APPDATA, OP_CCS, OP_SKIP_AUTH, OP_EMPTY_CERT, OP_SPAN, OP_HRR, OP_N };
+static const char *op_name[] = { "delete", "duplicate", "swap", "substitute-type", "inject", "flip-bit", "send-in-clear", "wrong-keys", "appdata-before-finished", "ccs", "skip-cert+cv", "empty-certificate", "span-key-change", "hello-retry-request" };
 enum Foreign { F_SKE, F_SHD, F_CKE, F_HELLO_REQUEST, F_KEY_UPDATE, F_EOED, F_NST, F_CERT_REQ, F_CH2, F_SH2, F_EE, F_CERT, F_CV, F_FIN, F_UNKNOWN, F_MSG_HASH, F_JUNK_HELLO, F_N };
 static const char *foreign_name[] = { "ServerKeyExchange", "ServerHelloDone", "ClientKeyExchange", "HelloRequest", "KeyUpdate", "EndOfEarlyData", "NewSessionTicket", "CertificateRequest",
                                       "ClientHello", "ServerHello", "EncryptedExtensions", "Certificate", "CertificateVerify", "Finished", "type-99", "message_hash", "junk-hello" };
@@ -240,7 +246,7 @@ static std::string dev_str(const Dev &x) {
     if (x.op == OP_INJECT) s += std::string(":") + foreign_name[x.param % F_N];
     else if (x.op == OP_SUBST) s += fmt(":%d", subst_types[x.param % N_SUBST]);
     else if (x.op == OP_CCS) s += std::string(":") + ccs_name[x.param % CCS_NVAR];
-    else if (x.op == OP_FLIP || x.op == OP_WRONGKEYS || x.op == OP_APPDATA || x.op == OP_SPAN) s += fmt(":%d", x.param);
+    else if (x.op == OP_FLIP || x.op == OP_WRONGKEYS || x.op == OP_APPDATA || x.op == OP_SPAN || x.op == OP_HRR) s += fmt(":%d", x.param);
     return s;
 }
 static Item foreign_item(int f, int keys, bool server_hello = true) {
@@ -292,6 +298,16 @@ static bool apply_dev(std::vector<Item> &v, const Dev &x) {
     case OP_EMPTY_CERT: {
         int c = find_body(v, p13::HS_CERTIFICATE), s = find_body(v, p13::HS_CERTIFICATE_VERIFY); if (c < 0) return false;
         v[c].st.empty_certificate = true; v[c].empty_cert = true; v[c].deviated = true; if (s >= 0) v.erase(v.begin() + s); return true; }
+    case OP_HRR: {    // deviations of the HelloRetryRequest round seen by a client (RFC 8446 4.1.4, 4.2.8); needs a trace that starts with a HelloRetryRequest
+        int h = -1; for (int i = 0; i < n; i++) if (v[i].kind == K_HS && v[i].is_hrr() && v[i].st.type_override < 0) { h = i; break; }
+        if (h < 0) return false;
+        int var = x.param % 6;
+        if (var <= 2) { Item c = v[h]; c.hrr_sel = var == 0 ? 0 : var == 1 ? 2 : 3; c.deviated = true; v.insert(v.begin() + h + 1, c); return true; }   // a second HelloRetryRequest: same group / another offered group / a group never offered
+        if (var == 3) { v[h].hrr_sel = 4; v[h].deviated = true; return true; }     // names the group the client already sent a share for
+        if (var == 4) { v[h].hrr_sel = 3; v[h].deviated = true; return true; }     // names a group the client did not offer
+        int sh = find_body(v, p13::HS_SERVER_HELLO); while (sh >= 0 && v[sh].is_hrr()) { int k = -1; for (int i = sh + 1; i < n; i++) if (v[i].kind == K_HS && v[i].body == p13::HS_SERVER_HELLO && !v[i].is_hrr()) { k = i; break; } sh = k; }
+        if (sh < 0) return false;
+        v[h].st.cipher_suite = 0x1303; v[sh].deviated = true; return true; }       // HelloRetryRequest says TLS_CHACHA20_POLY1305_SHA256, ServerHello TLS_AES_128_GCM_SHA256
     case OP_SPAN: {   // RFC 8446 5.1: a message that precedes a key change must end its record
         int var = x.param % 3;
         if (var == 0) {   // Finished shares its record with a following NewSessionTicket (both under handshake keys)
@@ -325,13 +341,15 @@ static std::vector<Dev> all_singles(const Dom &d) {
     for (int i = 0; i < n; i++) for (int k = 0; k < CCS_NVAR; k++) r.push_back({ OP_CCS, i, k });
     r.push_back({ OP_CCS, n, CCS_VALID });
     r.push_back({ OP_SKIP_AUTH, 0, 0 }); r.push_back({ OP_EMPTY_CERT, 0, 0 }); for (int k = 0; k < 3; k++) r.push_back({ OP_SPAN, 0, k });
+    if (d.vclient && d.hrr) for (int k = 0; k < 6; k++) r.push_back({ OP_HRR, 0, k });
     return r;
 }
 // domain points of the bounded-exhaustive target; new points are appended so that the indices of the regression tapes stay valid
-static const int NDOM = 10;
+static const int NDOM = 11;
 static const Dom DOMS[NDOM] = { { true, false, 0, false, false }, { true, false, 1, false, false }, { true, true, 0, false, false }, { true, true, 1, false, false },
                                 { false, false, 0, false, false }, { false, false, 1, false, false }, { false, true, 0, false, false }, { false, true, 1, false, false },
-                                { false, true, 0, false, true }, { false, true, 1, false, true } };
+                                { false, true, 0, false, true }, { false, true, 1, false, true },
+                                { true, false, 0, true, false } };
 
 // ------------------------------------------------------------------------------------------------ one run
 struct Var {                 // legal variations, independent of the deviations
@@ -359,7 +377,9 @@ static Result execute(const Dom &d, std::vector<Item> &items, const Var &var, Ct
     struct SidGuard { sslSessionId_t *s = nullptr; ~SidGuard() { if (s) matrixSslDeleteSessionId(s); } } sidg;
     if (d.vclient && matrixSslNewSessionId(&sidg.s, NULL) < 0) VF_FAIL(sig("harness-victim-open-failed"), "matrixSslNewSessionId failed; %s", desc.c_str());
     Endpoint V; Config vc; vc.sid = sidg.s;
-    vc.client = d.vclient; vc.versions = { TLS13 }; vc.suites = { 0x1301 }; vc.auth = d.cert ? AUTH_EC : AUTH_RSA;
+    vc.client = d.vclient; vc.versions = { TLS13 }; vc.suites = { 0x1301 };
+    if (d.vclient && d.hrr) vc.suites = { 0x1301, 0x1303 };   // so that "the suite changes between HelloRetryRequest and ServerHello" is about two offered suites
+    vc.auth = d.cert ? AUTH_EC : AUTH_RSA;
     vc.client_auth = d.vclient ? (d.cauth && var.victim_identity) : d.cauth;
     vc.cert_cb = cb_strict; vc.entropy_stream = 1;
     // key exchange groups.  No HRR: both sides prefer the same group.  HRR, client victim: the puppet server insists on the group the victim sent no
@@ -406,6 +426,7 @@ static Result execute(const Dom &d, std::vector<Item> &items, const Var &var, Ct
     int first_hs = -1; for (int i = 0; i < (int) items.size(); i++) if (items[i].kind == K_HS) { first_hs = i; break; }
     for (int i = 0; i < (int) items.size(); i++) {
         Step st = items[i].st;
+        if (items[i].is_hrr() && items[i].hrr_sel) st.group = items[i].hrr_sel == 2 ? p13::GROUP_SECP384R1 : items[i].hrr_sel == 3 ? 0x0100 : (var.x25519 ? p13::GROUP_X25519 : p13::GROUP_SECP256R1);
         if (i == first_hs && (items[i].body == p13::HS_CLIENT_HELLO || items[i].body == p13::HS_SERVER_HELLO) && st.keys == p13::EP_PLAIN) st.rec_version = var.hello_rec_version;   // 0x0301 is allowed on an initial hello only
         if (v.accepts() && i > v.complete_at) { legit_phase = true; if (items[i].kind == K_APPDATA && st.keys == p13::EP_APP) legit_sent.insert(legit_sent.end(), st.payload.begin(), st.payload.end()); }
         Bytes wire = P.emit(st);
@@ -548,7 +569,7 @@ static void prop(Tape &t, Ctx &c) {
     std::vector<Dev> chosen;
     for (int i = 0; i < ndev; i++) {
         // half of the draws by operator first (so rare operators are not drowned by inject/substitute), half uniformly over all singles
-        if (t.coin()) { int op = (int) t.below(OP_N); std::vector<Dev> sub; for (auto &x : singles) if (x.op == op) sub.push_back(x); chosen.push_back(sub[t.below(sub.size())]); }
+        if (t.coin()) { int op = (int) t.below(OP_N); std::vector<Dev> sub; for (auto &x : singles) if (x.op == op) sub.push_back(x); if (sub.empty()) sub = singles; chosen.push_back(sub[t.below(sub.size())]); }
         else chosen.push_back(singles[t.below(singles.size())]);
     }
     Var var; var.seed = 1 + t.u16();
@@ -557,6 +578,7 @@ static void prop(Tape &t, Ctx &c) {
     var.hello_rec_version = t.chance(1, 4) ? 0x0301 : 0x0303;
     bool vary = true;
 #endif
+    for (auto &x : chosen) if (x.op == OP_HRR && x.param % 6 == 1) var.x25519 = false;   // "another offered group" needs the victim's default group list (secp256r1 share; secp384r1, x25519, secp521r1 offered)
     std::vector<Item> items = legal_trace(d);
     std::vector<Dev> applied;
     for (auto &x : chosen) if (apply_dev(items, x)) applied.push_back(x);
